@@ -32,6 +32,7 @@ pub fn quick_types() -> Vec<Ty> {
         t_iter(Ty::Str),
         Ty::union([Ty::Tup(vec![Ty::Int, Ty::Int]), Ty::Tup(vec![Ty::Int, Ty::Int, Ty::Int])]),
         Ty::arr(Ty::union([Ty::Int, Ty::Float])),
+        Ty::func(vec![Ty::Int], Ty::Bool),
     ]
 }
 
@@ -51,7 +52,6 @@ pub fn thorough_types() -> Vec<Ty> {
         t_iter(Ty::Bool),
         Ty::union([Ty::func(vec![Ty::Any], Ty::Int), Ty::func(vec![Ty::Int], Ty::Any)]),
         Ty::func(vec![Ty::Int, Ty::Int], Ty::Int),
-        Ty::func(vec![Ty::Int], Ty::Bool),
         Ty::union([Ty::strukt(&[("a", Ty::Int), ("b", Ty::Str)]), Ty::strukt(&[("a", Ty::Float)])]),
         Ty::func(vec![], Ty::Never),
         Ty::mutc(Ty::arr(Ty::Int)),
